@@ -96,6 +96,15 @@ SPECS = [
          ],
          raises={'*': {'ensures': ["raised('e9') or raised('h1')"]}},
          serves=PROP + ["C02", "C07"]),
+    dict(id='S-Attribute-dict',
+         # a dictionary-valued entry of tal:attributes: evaluated once, before the named entries
+         # it may override; each named entry once
+         text='A<p k="s" tal:attributes="k e9; e10">x</p>B',
+         loops={1: {'abstract': {'calls': ['items', 'bool', '__append', '__quote']}}},
+         ensures=["evals(9) == 1", "evals(10) == 1", "trace('e10', 'e9')"],
+         raises={'*': {'ensures': ["raised('e9') or raised('e10') or loop_failed() or "
+                                   "(evals(9) == 1 and evals(10) == 1)"]}},
+         serves=PROP + ["C04", "C07"], no_fresh=True),
     dict(id='S-Combined',
          # "definitions first, then the guards, then content or replacement, then tag omission
          # and attributes" -- all statements on ONE element (the order they are written in is
